@@ -1161,9 +1161,15 @@ func (sc *serverConn) handleHeaderFrame(strm *Stream, fr *FrameHeader) error {
 		return NewGoAwayError(ProtocolError, "stream that depends on itself")
 	}
 
-	// Only a HEADERS or PUSH_PROMISE frame opens a header block, and only when
-	// there is nothing left over from a frame that cut a field in half.
-	blockStart := fr.Type() != FrameContinuation && len(strm.previousHeaderBytes) == 0
+	// Only a HEADERS or PUSH_PROMISE frame opens a header block. How far into the
+	// block the decoder is has to survive from one frame to the next: a dynamic
+	// table size update is legal exactly while no field of the block has been
+	// decoded, and the bytes carried over from a frame that cut a field in half
+	// are decoded again from where that field began, which may be the very
+	// start of the block.
+	if fr.Type() != FrameContinuation {
+		strm.blockFields = 0
+	}
 
 	// Appending to the stream's own buffer and handing it back keeps the
 	// capacity across frames instead of allocating a header block every time.
@@ -1177,12 +1183,10 @@ func (sc *serverConn) handleHeaderFrame(strm *Stream, fr *FrameHeader) error {
 
 	var err error
 
-	fieldsProcessed := 0
-
 	for len(b) > 0 {
 		pb := b
 
-		b, err = sc.dec.nextField(hf, blockStart, fieldsProcessed, b)
+		b, err = sc.dec.nextField(hf, strm.blockFields == 0, strm.blockFields, b)
 		if err != nil {
 			// ErrUnexpectedSize means a header field spills past the bytes we
 			// currently have. That is only legal when more frames are coming:
@@ -1255,7 +1259,7 @@ func (sc *serverConn) handleHeaderFrame(strm *Stream, fr *FrameHeader) error {
 				return NewResetStreamError(ProtocolError, fmt.Sprintf("invalid request pseudo-header %s", k))
 			}
 
-			fieldsProcessed++
+			strm.blockFields++
 			continue
 		}
 
@@ -1296,7 +1300,7 @@ func (sc *serverConn) handleHeaderFrame(strm *Stream, fr *FrameHeader) error {
 			req.Header.AddBytesKV(k, v)
 		}
 
-		fieldsProcessed++
+		strm.blockFields++
 	}
 
 	return err
